@@ -64,6 +64,11 @@ func init() {
 				Quick:    p("facts", 2, "rules", 1, "body", 1, "arity", 2, "vars", 2, "expr", 0, "kinds", 1, "varfacts", 0, "varrules", 0),
 				Thorough: p("facts", 2, "rules", 1, "body", 2, "arity", 2, "vars", 2, "expr", 0, "kinds", 1, "varfacts", 0, "varrules", 0),
 				Covers:   []string{"run-ok", "derived"}},
+			// two rules: chains, mutual recursion, a rule feeding itself through the other
+			{Pkg: "datalog", Func: "VerifC05Fixpoint",
+				Quick:    p("facts", 1, "rules", 2, "body", 1, "arity", 1, "vars", 1, "expr", 0, "kinds", 1, "varfacts", 0, "varrules", 0),
+				Thorough: p("facts", 2, "rules", 2, "body", 1, "arity", 1, "vars", 1, "expr", 1, "kinds", 1, "varfacts", 0, "varrules", 0),
+				Covers:   []string{"run-ok", "derived"}},
 		},
 		Assumptions: append([]string{
 			"bounds (quick/thorough): initial facts 2/3, rules 1/2, body predicates <= 2, arity <= 1/2, <= 2 distinct variables, <= 1 integer comparison per rule; predicate names and constants fully symbolic 64-bit; run limits generous; deadline never reached (timeouts are C11)",
